@@ -4,6 +4,7 @@ message-to-user TLVs (engine V).  DESIGN.md section 4, C18."""
 from __future__ import annotations
 
 from mc import domains as D
+from mc.alias import receive_buffer, reuse_buffer
 from mc.rec import Rec
 from ref import tlv as R
 from units.cfdp_tlv import CONDITION_CODES, bt, hx
@@ -268,7 +269,9 @@ def _check_message(rec, L, case, kind, p, keep):
     if got != ref:
         return bad("encode/pack/octets", got, ref)
     try:
-        m = L.tlv.MessageToUserTlv.unpack(ref)
+        rb = receive_buffer(ref)
+        m = L.tlv.MessageToUserTlv.unpack(rb)
+        reuse_buffer(rb)  # the caller re-uses its receive buffer: the decoded message must not change
     except Exception as e:
         return bad("decode/MessageToUserTlv.unpack/exception", _exc(e), None)
     keep.hold("MessageToUserTlv.unpack", m, _obs_msg, case)
